@@ -46,7 +46,8 @@ def floors(tier):
 
 
 def plan(tier, seed):
-    return [{"what": "defs", "part": i, "of": 6} for i in range(6)] + [{"what": "tables"}]
+    return [{"what": "defs", "part": i, "of": 6} for i in range(6)] + [{"what": "tables"},
+                                                                         {"what": "race", "suites": ["mixed"]}]
 
 
 def nominal_nodes(t, extra=None):
@@ -111,7 +112,8 @@ def source_duplicates(path):
     -> [(where, key)]"""
     import ast
 
-    tree = ast.parse(open(path, encoding="utf-8").read())
+    with open(path, encoding="utf-8") as fh:
+        tree = ast.parse(fh.read())
     names = {}  # variable -> set of literal keys (module level)
     found = []
 
@@ -178,6 +180,10 @@ def source_duplicates(path):
 
 
 def check(case) -> core.Out:
+    if isinstance(case, dict) and case.get("kind") == "race":
+        from vp.props import racing
+
+        return racing.check_race(PROP, case)
     import pyubx2
 
     k = case["kind"]
@@ -405,6 +411,12 @@ def check(case) -> core.Out:
 
 
 def run_shard(spec, ctx, acc):
+    if spec.get("what") == "race":
+        # steady-state concurrency (see vp/props/racing.py)
+        for suite in spec["suites"]:
+            case = {"kind": "race", "suite": suite, "seconds": 1.2 if ctx["tier"] == "quick" else 20}
+            core.handle(acc, check(case), case, set(ctx["known"]))
+        return
     import pyubx2
     from pyubx2.ubxvariants import VARIANTS
 
